@@ -959,6 +959,34 @@ func (e *e3) indexClass(idx ssa.Value) string {
 	return ""
 }
 
+// modHelperKind classifies a function func(x, n int) int whose single return value is a remainder by n:
+// "nonneg" if the result is provably in [0, n) for n > 0 — ((x % n) + n) % n — , "signed" if it is a remainder whose
+// dividend is not made non-negative first (x % n, (x + n) % n), "" if the function is not of this shape.
+func modHelperKind(g *ssa.Function) (string, string) {
+	if len(g.Params) < 2 || len(g.Blocks) != 1 {
+		return "", ""
+	}
+	n := g.Params[len(g.Params)-1]
+	ret, ok := g.Blocks[0].Instrs[len(g.Blocks[0].Instrs)-1].(*ssa.Return)
+	if !ok || len(ret.Results) != 1 {
+		return "", ""
+	}
+	outer, ok := ret.Results[0].(*ssa.BinOp)
+	if !ok || outer.Op != token.REM || outer.Y != ssa.Value(n) {
+		return "", ""
+	}
+	// ((x % n) + n) % n
+	if add, ok := outer.X.(*ssa.BinOp); ok && add.Op == token.ADD {
+		for _, pair := range [][2]ssa.Value{{add.X, add.Y}, {add.Y, add.X}} {
+			if inner, ok := pair[0].(*ssa.BinOp); ok && inner.Op == token.REM && inner.Y == ssa.Value(n) && pair[1] == ssa.Value(n) {
+				return "nonneg", "((x % n) + n) % n"
+			}
+		}
+		return "signed", "it computes (x + n) % n, which is negative for x < -n"
+	}
+	return "signed", "it computes x % n, which is negative for negative x"
+}
+
 // mayReturnNilSlice: v is (a field-store round trip of) the slice result of a
 // repository function that returns a nil constant on some path.
 func (e *e3) mayReturnNilSlice(v ssa.Value) (string, bool) {
@@ -1034,6 +1062,41 @@ func (e *e3) indexSite(rule string, fn *ssa.Function, b *ssa.BasicBlock, in ssa.
 		return
 	}
 	construct := "index:" + roleKey(cont) + "[" + roleKey(idx) + "]"
+	// class B5: the index is the result of a helper that reduces its argument modulo its last parameter,
+	// and that parameter is the container's length: decided from the helper's body (Go's % takes the sign of the dividend)
+	if call, ok := idx.(*ssa.Call); ok {
+		if g := call.Call.StaticCallee(); g != nil && e.p.isRepoFunc(g) {
+			if kind, detail := modHelperKind(g); kind != "" {
+				n := call.Call.Args[len(call.Call.Args)-1]
+				isLen := false
+				if mk, ok := cont.(*ssa.MakeSlice); ok && (mk.Len == n || sameValue(mk.Len, n)) {
+					isLen = true
+				}
+				if ph, ok := cont.(*ssa.Phi); ok {
+					isLen = len(ph.Edges) > 0
+					for _, ed := range ph.Edges {
+						mk, ok := ed.(*ssa.MakeSlice)
+						if !ok || !(mk.Len == n || sameValue(mk.Len, n)) {
+							isLen = false
+						}
+					}
+				}
+				if isLen {
+					rn := e.rg.rangeAt(n, b, 0)
+					switch {
+					case kind == "nonneg" && rn.lo >= 1:
+						e.r.Discharge(rule+"5", shortFn(fn), construct, pos, "index = "+shortFn(g)+"(x, n) with n = len(container) >= 1, and the helper returns a value in [0, n): "+detail)
+					case kind == "nonneg":
+						e.r.Violate(rule+"5", shortFn(fn), construct, pos, "the modulus "+describe(n)+" of the index helper is not proven positive", e.p.callPath(fn))
+					default:
+						e.r.Violate(rule+"5", shortFn(fn), construct, pos,
+							"the index helper "+shortFn(g)+" can return a negative value: "+detail+" (Go's % takes the sign of the dividend); the argument here is request-derived, so the index can be -1", e.p.callPath(fn))
+					}
+					return
+				}
+			}
+		}
+	}
 	if cls := e.indexClass(idx); cls == "" {
 		ok, why := e.indexInBounds(idx, cont, b)
 		if ok {
